@@ -241,3 +241,18 @@ Definition ultrametric3 (M : tbl Q) (order : list Z) : Prop :=
   forall x y z, In x order -> In y order -> In z order -> x <> y -> y <> z -> x <> z ->
     (mval M x z <= mval M x y)%Q \/ (mval M x z <= mval M y z)%Q.
 
+
+(* the Q-criterion, as a hypothesis about a class P of pools (for P = "the stored distances are the
+   path distances of a tree with positive internal edge lengths" this is the lemma of Saitou-Nei /
+   Studier-Keppler together with the fact that joining a cherry leaves such a matrix) *)
+Definition qcrit_cherry (P : list jnode -> Prop) : Prop :=
+  forall pool j0 j1, P pool -> jwf pool -> (3 <= length pool)%nat ->
+    In (j0, j1) (pairs_of pool) ->
+    (forall a b, In (a, b) (pairs_of pool) ->
+                 (qvalue (Z.of_nat (length pool)) j0 j1 <= qvalue (Z.of_nat (length pool)) a b)%Q) ->
+    exists a0 a1 mv, is_cherry (remove_id j_id (j_id j1) (remove_id j_id (j_id j0) pool)) j0 j1 a0 a1 mv.
+
+Definition qcrit_closed (P : list jnode -> Prop) : Prop :=
+  forall pool next pool', P pool -> jwf pool -> (3 <= length pool)%nat -> ~ In next (jids pool) ->
+    nj_step pool (Z.of_nat (length pool)) next = Ok pool' -> P pool'.
+
